@@ -234,8 +234,40 @@ func eqArgv(a []string, b ...string) bool {
 	return true
 }
 
+// shimFault: fault injection for the service commands. /.nv/failat holds a count k (armed by the
+// harness just before one Setup/Configure call): the k-th service command from now exits 1 without
+// any effect, once (mirrors NV.Router.faultConsts).
+func shimFault() bool {
+	b, err := os.ReadFile(nvDir + "/failat")
+	if err != nil {
+		return false
+	}
+	k := 0
+	fmt.Sscan(string(b), &k)
+	if k <= 1 {
+		os.Remove(nvDir + "/failat")
+		return k == 1
+	}
+	must(os.WriteFile(nvDir+"/failat", []byte(fmt.Sprint(k-1)), 0644))
+	return false
+}
+
+// svcCmds: number of service commands in the restart sequence of each firmware (what
+// NV.Gen.Router.<fw>.cmds holds); a fault position beyond it is not armed.
+var svcCmds = map[string]int{"openwrt": 1, "merlin": 1, "ddwrt": 2, "edgeos": 1, "synology": 1, "firewalla": 1}
+
+func armFault(fw string, k int) {
+	if k >= 1 && k <= svcCmds[fw] {
+		must(os.WriteFile(nvDir+"/failat", []byte(fmt.Sprint(k)), 0644))
+	}
+}
+
 // shimExecBase mirrors NV.Router.execBase.
 func shimExecBase(argv []string) int {
+	if shimFault() {
+		fmt.Fprintln(os.Stderr, "shim: injected failure of", argv)
+		return 1
+	}
 	switch {
 	case eqArgv(argv, "/etc/init.d/dnsmasq", "restart"), eqArgv(argv, "service", "restart_dnsmasq"),
 		eqArgv(argv, "startservice", "dnsmasq"), eqArgv(argv, "/etc/rc.network", "nat-restart-dhcp"),
@@ -606,6 +638,27 @@ func runRouterCase(line string) (out string) {
 			} else {
 				s = "S:" + okS(r.Setup())
 			}
+		case 'x', 'y':
+			if r == nil {
+				s = string(op) + ":-"
+			} else {
+				armFault(fw, int(op-'x')+1)
+				s = string(op) + ":" + okS(r.Setup())
+				os.Remove(nvDir + "/failat")
+			}
+		case 'v', 'w':
+			if r == nil {
+				s = string(op) + ":-"
+			} else {
+				armFault(fw, int(op-'v')+1)
+				err := r.Configure(&cfg)
+				os.Remove(nvDir + "/failat")
+				ls := make([]string, len(cfg.Listens))
+				for i, l := range cfg.Listens {
+					ls[i] = hx([]byte(l))
+				}
+				s = fmt.Sprintf("%c:%s listens=%s cs=%s", op, okS(err), strings.Join(ls, ","), hx([]byte(cfg.CacheSize)))
+			}
 		case 'R':
 			if r == nil {
 				s = "R:-"
@@ -906,6 +959,12 @@ func genRouterCase(r *Rng, c *Ctx) string {
 		ops = "NCR"
 	case k < 84:
 		ops = "NCSNCSNCSR"
+	case k < 90:
+		// a service command fails once during start; the daemon keeps running and is stopped later
+		ops = pickS(r, "NCxR", "NCyR", "NvSR", "NwSR", "NCxRNCSR", "NCyNCSR")
+		if r.Chance(70) {
+			fw = pickS(r, "ddwrt", "ddwrt", "openwrt", "merlin", "edgeos", "synology", "firewalla")
+		}
 	default:
 		n := 1 + r.Intn(7)
 		ops = "N"
@@ -917,6 +976,8 @@ func genRouterCase(r *Rng, c *Ctx) string {
 	switch {
 	case ops == "NCSR", ops == "NCSNCSR", ops == "NCSRNCSR", ops == "D":
 		c.Stat("ops:" + ops)
+	case strings.ContainsAny(ops, "xyvw"):
+		c.Stat("ops:service-command-fault")
 	case strings.Contains(ops, "D"):
 		c.Stat("ops:detect+cycle")
 	default:
